@@ -411,6 +411,18 @@ func trunc(s string, n int) string {
 // It returns true if a failing input was demonstrated.
 func replayModel(o *Obl, rep map[string]any) bool {
 	rep["replay"] = "no concrete replay available for this obligation kind; the failed obligation and the solver output are recorded above"
+	if o.Model != "" {
+		// the solver's (candidate) values of the function's parameters: a starting point for a manual reproduction.
+		// They are NOT replayed automatically (receivers, heaps and assumed library behaviour are part of the model).
+		cand := map[string]string{}
+		for _, kv := range ModelValues(o.Model, "a_") {
+			cand[strings.TrimPrefix(kv[0], "a_")] = kv[1]
+		}
+		if len(cand) > 0 {
+			rep["candidate_parameter_values"] = cand
+			rep["candidate_note"] = "values of the scalar parameters in the solver's model (result " + o.Result + "); pointers are (object, offset) pairs of the memory model"
+		}
+	}
 	return false
 }
 
